@@ -47,7 +47,21 @@ QcowImg(j) == [ext |-> j.ext, datafile |-> j.datafile, l2n |-> j.nc, s |-> j.s, 
                l2 |-> [c \in 0..j.nc-1 |-> [t |-> j.t[c + 1], h |-> j.h[c + 1],
                                              sub |-> IF j.ext /\ j.t[c + 1] # "C" THEN [o \in 1..32 |-> QSub(j, c, o - 1)] ELSE <<>>]]]
 
-Src(q) == CASE T.fmt = "vdi" -> Vdi!CellSrc(VdiImg(T.img), q)
+\* ---- chains (C07): T.chain is a sequence of layers, top first; data of layer i carries pattern file id i-1 ----
+LayerSrc(L, q) == CASE L.fmt = "vdi"   -> Vdi!CellSrc(VdiImg(L.img), q)
+                    [] L.fmt = "vhdx"  -> Vhdx!CellSrc(VhdxImg(L.img), q)
+                    [] L.fmt = "hds"   -> Hds!CellSrc(HdsImg(L.img), q)
+                    [] L.fmt = "qcow2" -> Qcow2!CellSrc(QcowImg(L.img), q)
+RECURSIVE ChainSrc(_, _, _)
+ChainSrc(ch, i, q) ==
+  IF i > Len(ch) THEN Zero
+  ELSE LET t == LayerSrc(ch[i], q)
+       IN CASE t.k = "B" -> ChainSrc(ch, i + 1, t.c)
+            [] t.k = "D" -> [t EXCEPT !.f = i - 1]
+            [] OTHER -> t
+
+Src(q) == CASE T.fmt = "chain" -> ChainSrc(T.chain, 1, q)
+            [] T.fmt = "vdi" -> Vdi!CellSrc(VdiImg(T.img), q)
             [] T.fmt = "vhd" -> Vhd!CellSrc(VhdImg(T.img), q)
             [] T.fmt = "hds" -> Hds!CellSrc(HdsImg(T.img), q)
             [] T.fmt = "vhdx" -> Vhdx!CellSrc(VhdxImg(T.img), q)
